@@ -1,5 +1,6 @@
 import Gen.Marshal
 import Model.MarshalScalar
+import Model.MarshalDecode
 /-!
   Tie theorems between the definitions REGENERATED from /repo/marshal.go by tools/go2lean (`Gen.Marshal`, fixed-width
   BitVec arithmetic as the Go code computes) and the hand-written `Int`/`Nat` model the C02/C12 theorems are about
@@ -466,5 +467,309 @@ theorem vfold_val (xs : List UInt8) (acc : BitVec 64) :
   | nil => rfl
   | cons x xs ih => simp only [List.map_cons, List.foldl_cons]; rw [ih, vstep_val]
 
+
+
+/-! ### `bits.LeadingZeros64` (translated to `BitVec.clz`) against the model's `leadingZeros64 u = 64 - bitLen u` -/
+
+theorem bitLen_of_bounds (k n : Nat) (h1 : 2^k ≤ n) (h2 : n < 2^(k+1)) : Marshal.bitLen n = k + 1 := by
+  induction k generalizing n with
+  | zero =>
+    have : n = 1 := by simp at h1 h2; omega
+    subst this
+    rw [Marshal.bitLen]; simp; rw [Marshal.bitLen]; simp
+  | succ k ih =>
+    have hn : n ≠ 0 := by
+      intro h; subst h; have := Nat.two_pow_pos (k+1); omega
+    rw [Marshal.bitLen]; simp only [hn, if_false]
+    have := ih (n / 2) (by rw [Nat.pow_succ] at h1; omega) (by rw [Nat.pow_succ] at h2; omega)
+    omega
+
+theorem clz_bitLen (x : BitVec 64) : (BitVec.clz x).toNat = 64 - Marshal.bitLen x.toNat := by
+  by_cases hx : x = 0#64
+  · subst hx
+    have : BitVec.clz (0#64) = 64#64 := by decide
+    rw [this, Marshal.bitLen]; simp
+  · have hlt : (BitVec.clz x).toNat < 64 := by
+      have := (BitVec.clz_lt_iff_ne_zero (x := x)).mpr hx
+      have := BitVec.lt_def.mp this
+      simpa using this
+    have h1 := BitVec.two_pow_sub_clz_le_toNat_of_ne_zero (x := x) (by decide) hx
+    have h2 := BitVec.toNat_lt_two_pow_sub_clz (x := x)
+    have e : 64 - (BitVec.clz x).toNat = (64 - 1 - (BitVec.clz x).toNat) + 1 := by omega
+    rw [e] at h2
+    have := bitLen_of_bounds _ _ h1 h2
+    omega
+
+
+/-! ### The whole `encVint` (descending store loop): for each of the ten possible byte counts the loop unfolds to an
+  explicit list, compared entry by entry with the model's `lowBytes` -/
+
+set_option linter.unusedVariables false
+
+theorem numBytes_of_lead0 : ∀ l, l ≤ 64 →
+    BitVec.sshiftRight (0x27f#64 - (BitVec.ofNat 64 l * 0x9#64)) 6 = BitVec.ofNat 64 ((639 - l * 9) >>> 6) := by
+  decide
+
+theorem byteNat_bv (x : BitVec 64) : ValueSpec.byteOfNat x.toNat = UInt8.ofBitVec (x.setWidth 8) := by
+  unfold ValueSpec.byteOfNat
+  apply UInt8.toBitVec_inj.mp
+  apply BitVec.eq_of_toNat_eq
+  simp
+
+theorem div256_bv (x : BitVec 64) : x.toNat / 256 = (x >>> 8).toNat := by
+  rw [BitVec.toNat_ushiftRight, Nat.shiftRight_eq_div_pow]
+
+/-- the part of the generated `encVint` after `numBytes` has been computed -/
+def encVintBody (vEnc numBytes : BitVec 64) : List (BitVec 8) :=
+  if (BitVec.sle numBytes 0x1#64) then
+    [(vEnc.setWidth 8)]
+  else
+    let extraBytes := (numBytes - 0x1#64)
+    let buf : List (BitVec 8) := (List.replicate (numBytes).toNat 0#8)
+    let (buf, vEnc) := Gen.Marshal.encVint_loop1  ((extraBytes - 0x0#64).toNat + 1) extraBytes buf vEnc
+    let buf := buf.set 0 ((buf.getD 0 0#8) ||| (~~~(0xff#8 >>> (extraBytes).toNat)))
+    buf
+
+def encVintModelBody (vEnc numBytes : Nat) : List UInt8 :=
+  if numBytes ≤ 1 then [ValueSpec.byteOfNat vEnc]
+  else
+    let extraBytes := numBytes - 1
+    match lowBytes extraBytes vEnc with
+    | b0 :: r => (b0 ||| UInt8.ofNat (255 - (255 >>> extraBytes))) :: r
+    | [] => []
+
+theorem ofBitVec_or (a b : BitVec 8) : UInt8.ofBitVec (a ||| b) = UInt8.ofBitVec a ||| UInt8.ofBitVec b := rfl
+
+theorem encVintBody_eq (u : BitVec 64) (k : Nat) (hk : k ≤ 9) :
+    (encVintBody u (BitVec.ofNat 64 k)).map UInt8.ofBitVec = encVintModelBody u.toNat k := by
+  obtain rfl | rfl | rfl | rfl | rfl | rfl | rfl | rfl | rfl | rfl :
+    k = 0 ∨ k = 1 ∨ k = 2 ∨ k = 3 ∨ k = 4 ∨ k = 5 ∨ k = 6 ∨ k = 7 ∨ k = 8 ∨ k = 9 := by omega
+  all_goals
+    simp [encVintBody, encVintModelBody, Gen.Marshal.encVint_loop1, lowBytes]
+  all_goals repeat' apply And.intro
+  all_goals first | (apply congrArg (· ||| _)) | skip
+  all_goals
+    unfold ValueSpec.byteOfNat
+    apply UInt8.toBitVec_inj.mp
+    apply BitVec.eq_of_toNat_eq
+    simp [Nat.shiftRight_eq_div_pow]
+    try omega
+
+
+theorem encVint_all (n : Int) :
+    (Gen.Marshal.encVint (BitVec.ofInt 64 n)).map UInt8.ofBitVec = Marshal.encVint n := by
+  have hg : Gen.Marshal.encVint (BitVec.ofInt 64 n)
+      = encVintBody (Gen.Marshal.encIntZigZag (BitVec.ofInt 64 n))
+          (BitVec.sshiftRight (0x27f#64 - (((BitVec.clz (Gen.Marshal.encIntZigZag (BitVec.ofInt 64 n))).setWidth 64) * 0x9#64)) 6) := rfl
+  have hm : Marshal.encVint n
+      = encVintModelBody (Marshal.encIntZigZag n) ((639 - Marshal.leadingZeros64 (Marshal.encIntZigZag n) * 9) >>> 6) := rfl
+  rw [hg, hm, ← GenTie.C12.encIntZigZag n]
+  generalize Gen.Marshal.encIntZigZag (BitVec.ofInt 64 n) = u
+  have hl := clz_bitLen u
+  have hc : (BitVec.clz u).setWidth 64 = BitVec.ofNat 64 (64 - Marshal.bitLen u.toNat) := by
+    apply BitVec.eq_of_toNat_eq
+    simp only [BitVec.setWidth_eq, hl, BitVec.toNat_ofNat]
+    omega
+  unfold Marshal.leadingZeros64
+  rw [hc, numBytes_of_lead0 _ (by omega)]
+  apply encVintBody_eq
+  rw [Nat.shiftRight_eq_div_pow]
+  omega
+
+/-- `encVint(v int64)` (zig-zag, `bits.LeadingZeros64`, byte count, the descending store loop, the length prefix bits)
+    equals the model's `Marshal.encVint` for every int64 -/
+theorem encVint (n : Int) (hn : -(2:Int)^63 ≤ n ∧ n < (2:Int)^63) :
+    (Gen.Marshal.encVint (BitVec.ofInt 64 n)).map UInt8.ofBitVec = Marshal.encVint n := encVint_all n
+
+/-! ### `readCollectionSize` (a struct parameter passed as the field it uses; `error` results as the Bool "non-nil") against
+  the decode model's `Marshal.readCollSize` -/
+
+theorem slt_nat (a b : Nat) (ha : a < 2^63) (hb : b < 2^63) :
+    BitVec.slt (BitVec.ofNat 64 a) (BitVec.ofNat 64 b) = decide (a < b) := by
+  simp only [BitVec.slt, BitVec.toInt_eq_toNat_cond, BitVec.toNat_ofNat]
+  have a' : a % 2^64 = a := Nat.mod_eq_of_lt (by omega)
+  have b' : b % 2^64 = b := Nat.mod_eq_of_lt (by omega)
+  rw [a', b']
+  have : 2 * a < 2^64 := by omega
+  have : 2 * b < 2^64 := by omega
+  simp [*]
+
+theorem shorter_eq {α : Type} (l : List α) (n : Nat) : ValueSpec.shorter l n = decide (l.length < n) := by
+  by_cases h : l.length < n
+  · simp [h, (ValueSpec.shorter_iff l n).mpr h]
+  · have : ValueSpec.shorter l n ≠ true := fun c => h ((ValueSpec.shorter_iff l n).mp c)
+    simp [h, this]
+
+/-- `readCollectionSize(info, data)`: error on a short prefix, else the int32 (protocol > 2) / uint16 size and the number
+    of bytes read -/
+theorem readCollectionSize (p : BitVec 8) (data : List UInt8) (h : data.length < 2^63) :
+    (match Gen.Marshal.readCollectionSize p (data.map (·.toBitVec)) with
+     | (size, read, err) => if err then none else some (size.toInt, data.drop read.toNat))
+      = Marshal.readCollSize p.toNat data := by
+  unfold Gen.Marshal.readCollectionSize Marshal.readCollSize
+  rw [List.length_map, show (0x4#64 : BitVec 64) = BitVec.ofNat 64 4 from rfl, show (0x2#64 : BitVec 64) = BitVec.ofNat 64 2 from rfl,
+    slt_nat _ _ h (by decide), slt_nat _ _ h (by decide), shorter_eq, shorter_eq]
+  have hp : BitVec.ult 0x2#8 p = decide (p.toNat > 2) := by simp [BitVec.ult]
+  rw [hp]
+  by_cases h2 : p.toNat > 2
+  · simp only [h2, decide_true, if_true]
+    by_cases hl : data.length < 4
+    · simp [hl]
+    · obtain ⟨a, b, c, d, r, rfl⟩ : ∃ a b c d r, data = a :: b :: c :: d :: r := by
+        rcases data with _ | ⟨a, _ | ⟨b, _ | ⟨c, _ | ⟨d, r⟩⟩⟩⟩
+        · simp at hl
+        · simp at hl
+        · simp at hl
+        · simp at hl
+        · exact ⟨a, b, c, d, r, rfl⟩
+      have hd := GenTie.C12.decInt [a, b, c, d] (by simp)
+      simp only [Gen.Marshal.decInt, List.map_cons, List.map_nil, List.length_cons, List.length_nil] at hd
+      simp only [hl, decide_false, Bool.false_eq_true, if_false, List.map_cons, List.getD_cons_zero, List.getD_cons_succ]
+      rw [BitVec.toInt_signExtend_of_le (by decide)]
+      simp at hd
+      simp [hd]
+  · simp only [h2, decide_false, Bool.false_eq_true, if_false]
+    by_cases hl : data.length < 2
+    · simp [hl]
+    · obtain ⟨a, b, r, rfl⟩ : ∃ a b r, data = a :: b :: r := by
+        rcases data with _ | ⟨a, _ | ⟨b, r⟩⟩
+        · simp at hl
+        · simp at hl
+        · exact ⟨a, b, r, rfl⟩
+      simp only [hl, decide_false, Bool.false_eq_true, if_false, List.map_cons, List.getD_cons_zero, List.getD_cons_succ]
+      have hb := UInt8.toNat_lt b; have ha := UInt8.toNat_lt a
+      have hv : ((a.toBitVec.setWidth 64 <<< 8) ||| b.toBitVec.setWidth 64).toNat = a.toNat * 256 + b.toNat := by
+        simp only [BitVec.toNat_or, BitVec.toNat_shiftLeft, BitVec.toNat_setWidth, UInt8.toNat_toBitVec]
+        rw [(byte_shl a 8 64 (by decide)).1, byte_mod b 64 (by decide), be2 _ _ hb]
+      have hi : ((a.toBitVec.setWidth 64 <<< 8) ||| b.toBitVec.setWidth 64).toInt = ((a.toNat * 256 + b.toNat : Nat) : Int) := by
+        rw [BitVec.toInt_eq_toNat_cond, hv]; split <;> omega
+      rw [hi]
+      simp [ValueSpec.beNat]
+
+/-! ### The WHOLE `decVint` (early returns with an error, `LeadingZeros32`, the accumulation loop, zig-zag) against `Marshal.decVint` -/
+
+theorem loop_same (d : List (BitVec 8)) (s n : BitVec 64) (fuel : Nat) (i ret : BitVec 64) :
+    Gen.Marshal.decVint_loop1 d s n fuel i ret = Gen.Marshal.decVint_decVintLoop_loop1 d s n fuel i ret := by
+  induction fuel generalizing i ret with
+  | zero => rfl
+  | succ k ih => simp only [Gen.Marshal.decVint_loop1, Gen.Marshal.decVint_decVintLoop_loop1, ih]
+
+theorem bitLen_le (k n : Nat) (h : n < 2^k) : Marshal.bitLen n ≤ k := by
+  induction k generalizing n with
+  | zero => have : n = 0 := by simpa using h
+            subst this; rw [Marshal.bitLen]; simp
+  | succ k ih =>
+    rw [Marshal.bitLen]
+    split
+    · omega
+    · have := ih (n / 2) (by rw [Nat.pow_succ] at h; omega)
+      omega
+
+theorem clz_bitLen32 (x : BitVec 32) : (BitVec.clz x).toNat = 32 - Marshal.bitLen x.toNat := by
+  by_cases hx : x = 0#32
+  · subst hx
+    have : BitVec.clz (0#32) = 32#32 := by decide
+    rw [this, Marshal.bitLen]; simp
+  · have hlt : (BitVec.clz x).toNat < 32 := by
+      have := (BitVec.clz_lt_iff_ne_zero (x := x)).mpr hx
+      have := BitVec.lt_def.mp this
+      simpa using this
+    have h1 := BitVec.two_pow_sub_clz_le_toNat_of_ne_zero (x := x) (by decide) hx
+    have h2 := BitVec.toNat_lt_two_pow_sub_clz (x := x)
+    have e : 32 - (BitVec.clz x).toNat = (32 - 1 - (BitVec.clz x).toNat) + 1 := by omega
+    rw [e] at h2
+    have := bitLen_of_bounds _ _ h1 h2
+    omega
+
+theorem small_iff : ∀ b : BitVec 8, ((b &&& 0x80#8) == 0x0#8) = decide (b.toNat < 128) := by decide
+
+theorem not_val : ∀ b : BitVec 8, ((~~~b).setWidth 32).toNat = 255 - b.toNat := by decide
+
+/-- `numBytes := bits.LeadingZeros32(uint32(^firstByte)) - 24` is the model's `leadOnes` -/
+theorem numBytes_val (b : UInt8) :
+    (((BitVec.clz ((~~~b.toBitVec).setWidth 32)).setWidth 64) - 0x18#64) = BitVec.ofNat 64 (Marshal.leadOnes b) := by
+  apply BitVec.eq_of_toNat_eq
+  have h1 := clz_bitLen32 ((~~~b.toBitVec).setWidth 32)
+  have h2 := not_val b.toBitVec
+  have hb := UInt8.toNat_lt b
+  have h3 := bitLen_le 8 (255 - b.toNat) (by omega)
+  unfold Marshal.leadOnes
+  rw [h2] at h1
+  simp only [UInt8.toNat_toBitVec] at h1
+  rw [BitVec.toNat_sub, BitVec.toNat_setWidth, h1]
+  simp
+  omega
+
+
+theorem sle_nat (a b : Nat) (ha : a < 2^63) (hb : b < 2^63) :
+    BitVec.sle (BitVec.ofNat 64 a) (BitVec.ofNat 64 b) = decide (a ≤ b) := by
+  simp only [BitVec.sle, BitVec.toInt_eq_toNat_cond, BitVec.toNat_ofNat]
+  have a' : a % 2^64 = a := Nat.mod_eq_of_lt (by omega)
+  have b' : b % 2^64 = b := Nat.mod_eq_of_lt (by omega)
+  rw [a', b']
+  have : 2 * a < 2^64 := by omega
+  have : 2 * b < 2^64 := by omega
+  simp [*]
+
+theorem slt_small_dec (a b : Nat) (ha : a < 2^63) (hb : b < 2^63) :
+    BitVec.slt (BitVec.ofNat 64 a) (BitVec.ofNat 64 b) = decide (a < b) := by
+  simp only [BitVec.slt, BitVec.toInt_eq_toNat_cond, BitVec.toNat_ofNat]
+  have a' : a % 2^64 = a := Nat.mod_eq_of_lt (by omega)
+  have b' : b % 2^64 = b := Nat.mod_eq_of_lt (by omega)
+  rw [a', b']
+  have : 2 * a < 2^64 := by omega
+  have : 2 * b < 2^64 := by omega
+  simp [*]
+
+theorem zz_toInt (x : BitVec 64) : (Gen.Marshal.decIntZigZag x).toInt = Marshal.decIntZigZag x.toNat := by
+  have := GenTie.C12.decIntZigZag x.toNat
+  rwa [BitVec.ofNat_toNat, BitVec.setWidth_eq] at this
+
+/-- the WHOLE `decVint(data, start)`: error / (value, next position) as the model's `decVint` on the suffix at `start` -/
+theorem decVint (data : List UInt8) (s : Nat) (hd : data.length < 2^60) (hs : s ≤ data.length) :
+    (match Gen.Marshal.decVint (data.map (·.toBitVec)) (BitVec.ofNat 64 s) with
+     | (v, nxt, err) => if err then none else some (v.toInt, data.drop nxt.toNat)) = Marshal.decVint (data.drop s) := by
+  unfold Gen.Marshal.decVint
+  rw [List.length_map, sle_nat _ _ (by omega) (by omega)]
+  by_cases h1 : data.length ≤ s
+  · have : data.drop s = [] := List.drop_eq_nil_of_le h1
+    simp [h1, this, Marshal.decVint]
+  · have hlt : s < data.length := by omega
+    have hdrop : data.drop s = data[s] :: data.drop (s + 1) := List.drop_eq_getElem_cons hlt
+    have hsn : (BitVec.ofNat 64 s).toNat = s := by simp only [BitVec.toNat_ofNat]; omega
+    have hget : (data.map (·.toBitVec)).getD (BitVec.ofNat 64 s).toNat 0#8 = (data[s]).toBitVec := by
+      rw [hsn, List.getD_eq_getElem?_getD, List.getElem?_map, List.getElem?_eq_getElem hlt]; rfl
+    simp only [h1, decide_false, Bool.false_eq_true, if_false, hget, small_iff, hdrop, Marshal.decVint, UInt8.toNat_toBitVec]
+    generalize data[s] = first
+    by_cases hsm : first.toNat < 128
+    · have h64 : first.toBitVec.setWidth 64 = BitVec.ofNat 64 first.toNat := by
+        apply BitVec.eq_of_toNat_eq; have := UInt8.toNat_lt first; simp
+      have hn : (BitVec.ofNat 64 s + 0x1#64).toNat = s + 1 := by simp; omega
+      simp [hsm, zz_toInt, hn]
+    · simp only [hsm, decide_false, Bool.false_eq_true, if_false, numBytes_val]
+      have hnb : Marshal.leadOnes first ≤ 8 := by unfold Marshal.leadOnes; omega
+      generalize Marshal.leadOnes first = nb at hnb
+      have hadd : BitVec.ofNat 64 s + BitVec.ofNat 64 nb + 0x1#64 = BitVec.ofNat 64 (s + nb + 1) := by
+        apply BitVec.eq_of_toNat_eq; simp
+      have hnbn : (BitVec.ofNat 64 nb).toNat = nb := by simp only [BitVec.toNat_ofNat]; omega
+      rw [hadd, slt_small_dec _ _ (by omega) (by omega), hnbn]
+      have hrl : (data.drop (s + 1)).length = data.length - (s + 1) := by simp
+      by_cases hshort : data.length < s + nb + 1
+      · have : (data.drop (s + 1)).length < nb := by omega
+        simp [hshort]; omega
+      · have hnot : ¬ (data.drop (s + 1)).length < nb := by omega
+        simp only [hshort, hnot, decide_false, Bool.false_eq_true, if_false]
+        rw [loop_same]
+        have hL := GenTie.C12.decVintLoop (data.map (·.toBitVec)) s nb (by simp; omega) (by simpa using hd)
+          (BitVec.setWidth 64 (first.toBitVec &&& 255#8 >>> nb))
+        unfold Gen.Marshal.decVintLoop at hL
+        simp only [] at hL
+        rw [hL, zz_toInt, List.drop_drop, ← List.map_drop, ← List.map_take, vfold_val]
+        have hr0 : (BitVec.setWidth 64 (first.toBitVec &&& 255#8 >>> nb)).toNat = first.toNat &&& 255 >>> nb := by
+          simp [BitVec.toNat_and]
+        have hn : (BitVec.ofNat 64 (s + nb + 1)).toNat = s + nb + 1 := by simp only [BitVec.toNat_ofNat]; omega
+        rw [hr0, hn]
+        congr 3
+        omega
 
 end GenTie.C12
